@@ -614,6 +614,35 @@ fn collect(cfg: &Cfg, good: bool, n: usize, phase: &str) -> Vec<MCase> {
                 }
             }
         }
+        // literals chosen to contain the letters that have non-ASCII case partners: every partner
+        // (U+212A lower-cases to k, U+017F upper-cases to S, U+0131 upper-cases to I, U+0130 and the
+        // full-width / Cyrillic look-alikes for normalisers that go further), at every occurrence
+        const FOLD_ALL: &[(char, char)] = &[('k', '\u{212a}'), ('s', '\u{17f}'), ('i', '\u{131}'), ('i', '\u{130}'), ('a', '\u{ff41}'), ('e', '\u{435}')];
+        const FOLD_BASES: &[(&str, &str)] = &[
+            ("lang", "ko"), ("lang", "sk"), ("lang", "is"), ("lang", "kis"), ("script", "Kana"), ("script", "Sink"), ("region", "KR"), ("region", "SK"), ("region", "IS"),
+            ("variant", "kiswa"), ("variant", "sinak"), ("variant", "1kis"), ("langid", "ko-KR"), ("langid", "sk-Sink-SK-sinak"), ("langid", "is_IS"), ("langid", "en-UK"),
+            ("locale", "ko-KR-u-ks-level1"), ("locale", "sk-t-is-k0-sinak-x-kis"), ("locale", "is-u-kiswa"), ("locale", "en-x-k"),
+        ];
+        for (m, l) in FOLD_BASES {
+            if verdict(m, l) != Some(true) {
+                continue;
+            }
+            for (from, to) in FOLD_ALL {
+                let hits: Vec<usize> = l.chars().enumerate().filter(|(_, ch)| ch.to_ascii_lowercase() == *from).map(|(i, _)| i).collect();
+                let mut lits: Vec<String> = hits.iter().map(|pos| l.chars().enumerate().map(|(i, ch)| if i == *pos { *to } else { ch }).collect()).collect();
+                if hits.len() > 1 {
+                    lits.push(l.chars().map(|ch| if ch.to_ascii_lowercase() == *from { *to } else { ch }).collect());
+                }
+                for lit in lits {
+                    if verdict(m, &lit) == Some(false) {
+                        let c = MCase { mac: m.to_string(), lits: vec![lit], trailing_comma: false, expect_ok: false };
+                        if seen.insert(c.clone()) {
+                            out.push(c);
+                        }
+                    }
+                }
+            }
+        }
     }
     let strat = if good { s_good_single() } else { s_bad_single() };
     let ph = salt(phase);
